@@ -66,7 +66,9 @@ TECHNIQUE = ('Coq proof over a deep-embedded mini-Python: the decision logic is 
 
 HOSTS = ['a.example', 'b.example', 'sub.a.example', 'xa.example', 'a.example.org', '127.0.0.1']
 PATHS = ['/', '/d/', '/d/x.html', '/d/e/y.png', '/dd/x.html', '/d', '/x.HTML', '/d/e/', '/d/a.b/c', '/d/e', '/d/logout.html',
-         '/e/d/x.html', '/d/x.html?q=1', '/d/.png', '/d/e/f/g.css', '/index.html']
+         '/e/d/x.html', '/d/x.html?q=1', '/d/.png', '/d/e/f/g.css', '/index.html',
+         # escapes are data: an escaped slash does not make a directory, an escaped letter is that letter only after normalisation
+         '/d%2Fx.html', '/d%2fe/y.png', '/%64/x.html', '/d/e%2Fy.png']
 SUFFIXES = ['*.html', 'x*', '.png', 'html', '*.css', '*', 'y.png', '*.HTML', 'logout*']
 REGEXES = ['/d/', r'x\.html$', 'logout', '^http://a', 'example', r'\.png', 'e/', '^https', r'\?q=']
 DIRS = ['/d', '/d/', '/d/e', '/d*', '*/e', '/dd', '/', '/d/e/', 'd', '/d/a.b']
